@@ -178,6 +178,7 @@ def build_and_link(tag, scripts, info, rng, extra_sections=True):
             L.symbols = {k: v[0] for k, v in lab.symbols().items() if v[0] is not None}
             L.sections = lab.sections()
             L.loads = lab.segments()
+            L.map_lma = lab.map_lmas()
             rc, ro, _ = ldlab.sh(["readelf", "-SW", "out.elf"], lab.dir)
             L.align = {}
             for line in ro.splitlines():
@@ -202,6 +203,9 @@ def sec_by_name(L, name):
 
 
 def lma_of(L, sec):
+    m = getattr(L, "map_lma", None) or {}
+    if sec.get("name") in m:
+        return m[sec["name"]]
     for ld in L.loads:
         if ld["vaddr"] <= sec["addr"] < ld["vaddr"] + max(ld["memsz"], 1) and \
                 ld["off"] <= sec["off"] < ld["off"] + max(ld["filesz"], 1) and sec["addr"] - ld["vaddr"] == sec["off"] - ld["off"]:
@@ -328,6 +332,8 @@ def check_vram(L, info):
             exp, why = FIXED_SYMS.get(s["fixed_symbol"]), "fixed_symbol"
         elif s["follows_segment"] is not None:
             exp, why = sym(L, s["follows_end_sym"]), "end of followed segment"
+            if any(degenerate(x) for x in emitted(info)):
+                exp = None      # see check_classes: around a dropped output section the symbols are ld's business
         elif s["vram_class"] is not None:
             exp, why = sym(L, cls[s["vram_class"]]["start"]) if s["vram_class"] in cls else None, "class start"
             full, prefix = expected_class_start(L, info, s["vram_class"])
@@ -476,6 +482,9 @@ def check_brackets_and_order(L, info, stmts):
         size = [x[1] for x in L.objects[(p, m)] if x[0] == sec][0]
         if addr is None:
             res["C01"].append("%s:%s(%s) is placed by a statement but missing from the image (discarded)" % (p, m, sec))
+            continue
+        if size == 0 and st.get("outsec") and sec_by_name(L, st["outsec"]) is None:
+            # ld removed the (empty) output section; where it then parks the marker of a zero-size input section says nothing
             continue
         g = grp.get(i)
         if g:
